@@ -7,6 +7,7 @@ before its pin); here each read is evaluated on exactly that version of the mode
   concbegin | cm <mutating op …> | cr <k> <read op …> | cf <S> <k1,k2,…> | concend
 -/
 import Gkv.Model.World
+import Gkv.Model.AnyKey
 open Std
 
 namespace Gkv
@@ -82,6 +83,58 @@ def dstepTokens (d : DState) (ts : List String) : DState × String :=
                                       stores := assocSet s { st with colls := cs, size := fs.size } w.stores } },
                if fs.failed then "err-io" else "ok"))
      | _, _ => (d, "bad-op"))
+  | ["seta", s, n, k, v, _, p] =>
+    -- Collection.SetAny(key, val): SetItem of (toBa key, toBa val) with the priority math/rand
+    -- hands out next (the harness seeds it and passes the value it will draw)
+    (match anyToken k, anyToken v with
+     | some kb, some vb => let (w', o) := stepTokens2 d.w ["set", s, n, kb, vb, p]; ({ d with w := w' }, o)
+     | _, _ => (d, "bad-op"))
+  | ["setr", s, n, k, v, _, p] =>
+    let (w', o) := stepTokens2 d.w ["set", s, n, k, v, p]; ({ d with w := w' }, o)
+  | ["geta", s, n, k] =>
+    (match anyToken k with
+     | some kb => (d, (stepTokens2 d.w ["get", s, n, kb]).2)
+     | none => (d, "bad-op"))
+  | ["exa", s, n, k] =>
+    (match anyToken k with
+     | some kb => (d, (stepTokens2 d.w ["exist", s, n, kb]).2)
+     | none => (d, "bad-op"))
+  | ["dela", s, n, k] =>
+    (match anyToken k with
+     | some kb => let (w', o) := stepTokens2 d.w ["del", s, n, kb]; ({ d with w := w' }, o)
+     | none => (d, "bad-op"))
+  | ["name", s, n] =>
+    -- Collection.Name() of a handle obtained from a writable or re-opened store
+    (match s.toNat?, parseBytes n with
+     | some s, some (some n) =>
+       (match assocGet s d.w.stores with
+        | none => (d, "nostore")
+        | some st => match collsGet n st.colls with
+          | none => (d, "nocoll")
+          | some c => (d, showBytes c.name))
+     | _, _ => (d, "bad-op"))
+  | ["icopy", s, n, k] => (d, (stepTokens2 d.w ["geti", s, n, k, "1"]).2)
+  | ["mjson", s, n] =>
+    -- Collection.MarshalJSON(): {"o":…,"l":…} of the root node's location, zeros while it has none
+    (match s.toNat?, parseBytes n with
+     | some s, some (some n) =>
+       (match assocGet s d.w.stores with
+        | none => (d, "nostore")
+        | some st => match collsGet n st.colls with
+          | none => (d, "nocoll")
+          | some c =>
+            let (o, l) := match c.root with
+              | .node _ _ _ _ _ (some p) _ => (p.off, p.len)
+              | _ => (0, 0)
+            (d, "{\"o\":" ++ toString o ++ ",\"l\":" ++ toString l ++ "}"))
+     | _, _ => (d, "bad-op"))
+  | ["fsize", s] =>
+    -- Store.Stats()["fileSize"]: the append position
+    (match s.toNat? with
+     | some s => (match assocGet s d.w.stores with
+        | none => (d, "nostore")
+        | some st => (d, toString st.size))
+     | none => (d, "bad-op"))
   | ["crashj", f, k, c, j] =>
     -- a crash image with arbitrary junk appended after it
     (match f.toNat?, k.toNat?, c.toNat?, parseHexAux j.toList [] with
